@@ -230,8 +230,8 @@ def _run_batch(arg):
         out["stats"].merge(res.get("stats", {}))
         if res.get("nontrivial", True):
             out["nontrivial"] += 1
-            sh = res.get("shape", res["log_digest"])
-            out["shapes"][sh] = out["shapes"].get(sh, 0) + 1
+            for sh in (res.get("shapes") or [res.get("shape", res["log_digest"])]):
+                out["shapes"][sh] = out["shapes"].get(sh, 0) + 1
         if len(out["samples"]) < 1 and res.get("nontrivial", True):
             out["samples"].append(engine.sample(prop, case))
         for v in res["violations"]:
@@ -252,13 +252,20 @@ def _same_violation(res, want):
     return None
 
 
-def _try_case(engine, prop, case, want, timeout=120):
+def _try_case(engine, prop, case, want, timeout=300):
     st, val = run_one_forked(lambda c: engine.run(prop, c), case, timeout=timeout)
     if st == "ok":
         return _same_violation(val, want)
     if st in ("crash", "timeout") and want["class"] == "harness-crash":
         return want
     return None
+
+
+def _shrink_iter(engine, prop, case, want):
+    try:
+        return engine.shrink(prop, case, want)
+    except TypeError:
+        return engine.shrink(prop, case)
 
 
 def minimise(engine, prop, case, want, budget_s=120):
@@ -268,7 +275,7 @@ def minimise(engine, prop, case, want, budget_s=120):
     improved = True
     while improved and time.time() - t0 < budget_s:
         improved = False
-        for cand in engine.shrink(prop, case):
+        for cand in _shrink_iter(engine, prop, case, want):
             if time.time() - t0 > budget_s:
                 break
             v = _try_case(engine, prop, cand, want)
@@ -334,6 +341,7 @@ def run_check(engine, prop, tier, seed, jobs, cases=None, budget_s=None, quiet=F
         cfg["budget_s"] = budget_s
     per = cfg["per_batch"]
     batches = [(engine, prop, seed, tier, s, min(per, cfg["cases"] - s)) for s in range(0, cfg["cases"], per)]
+    jobs = max(1, jobs // getattr(engine, "jobs_divisor", 1))
     deadline = t0 + cfg["budget_s"]
     results = forkmap(_run_batch, batches, jobs, timeout=cfg.get("batch_timeout", 300), deadline=deadline)
 
